@@ -86,6 +86,27 @@ var c10Offences = []c10Offence{
 		return raw(peer.Headers(2, reqBlock(2, "GET"), peer.HeadersOpt{EndStream: true, EndHeaders: true, Pad: -1}))
 	}},
 	{"data-on-idle-id", []uint32{cPROTOCOL}, func(x *c10Run) []byte { return raw(peer.Data(x.next+20, []byte("x"), false, -1)) }},
+	{"rst-stream-on-idle-id", []uint32{cPROTOCOL}, func(x *c10Run) []byte { return raw(peer.RstStream(x.next+20, 8)) }},
+	{"window-update-on-idle-id", []uint32{cPROTOCOL}, func(x *c10Run) []byte { return raw(peer.WindowUpdate(x.next+20, 5)) }},
+	{"continuation-on-idle-id", []uint32{cPROTOCOL}, func(x *c10Run) []byte { return raw(peer.Continuation(x.next+20, []byte{0x82}, true)) }},
+	{"data-on-closed-stream", []uint32{cCLOSED}, func(x *c10Run) []byte {
+		if x.closedID == 0 {
+			return nil
+		}
+		return raw(peer.Data(x.closedID, []byte("x"), false, -1))
+	}},
+	{"headers-on-closed-stream", []uint32{cCLOSED, cPROTOCOL}, func(x *c10Run) []byte {
+		if x.closedID == 0 {
+			return nil
+		}
+		return raw(peer.Headers(x.closedID, reqBlock(x.closedID, "GET"), peer.HeadersOpt{EndStream: true, EndHeaders: true, Pad: -1}))
+	}},
+	{"data-on-half-closed-stream", []uint32{cCLOSED}, func(x *c10Run) []byte {
+		if x.runningID == 0 {
+			return nil
+		}
+		return raw(peer.Data(x.runningID, []byte("x"), false, -1))
+	}},
 	{"headers-on-lower-id", []uint32{cPROTOCOL, cCLOSED}, func(x *c10Run) []byte {
 		x.newID()
 		skipped := x.newID() - 2
@@ -108,6 +129,8 @@ type c10Run struct {
 	next           uint32
 	opened         []uint32
 	dispatchedHere int
+	closedID       uint32 // a stream that ended normally before the offence
+	runningID      uint32 // a stream whose handler is still running (half-closed remote)
 }
 
 func (x *c10Run) newID() uint32 {
@@ -145,6 +168,9 @@ func c10Exec(cs c10Case) (*fw.Violation, *harness.Server) {
 		h.SendFrames(peer.Headers(id, reqBlock(id, "GET"), peer.HeadersOpt{EndStream: true, EndHeaders: true, Pad: -1}))
 		if !cs.Running {
 			h.Finish(len(h.Calls)-1, harness.Resp{Status: 200, Body: []byte("ok")})
+			x.closedID = id
+		} else {
+			x.runningID = id
 		}
 	}
 	if cs.Peer == "not-reading" {
@@ -154,11 +180,18 @@ func c10Exec(cs c10Case) (*fw.Violation, *harness.Server) {
 	callsBefore := len(h.Calls)
 	goBefore := len(h.GoAways)
 	ob := off.Make(x)
+	if ob == nil {
+		return nil, h // the offence needs a history this case does not have
+	}
 	if strings.HasSuffix(cs.Trailing, "-same-segment") {
 		// the peer's next frames are already in the socket buffer behind the offending one
 		for i := 0; i < 140; i++ {
 			if strings.HasPrefix(cs.Trailing, "data") {
 				ob = peer.Data(x.anyStream(), []byte("x"), false, -1).Append(ob)
+			} else if strings.HasPrefix(cs.Trailing, "window-updates") {
+				ob = peer.WindowUpdate(0, 1).Append(ob)
+			} else if strings.HasPrefix(cs.Trailing, "settings") {
+				ob = peer.Settings(peer.Setting{ID: peer.SInitialWindowSize, Val: uint32(1000 + i)}).Append(ob)
 			} else {
 				id := x.newID()
 				ob = peer.Headers(id, reqBlock(id, "GET"), peer.HeadersOpt{EndStream: true, EndHeaders: true, Pad: -1}).Append(ob)
@@ -336,9 +369,9 @@ func runC10(c *fw.Ctx) {
 	thorough := c.Tier == "thorough"
 	var item int64
 	sampled := 0
-	trailings := []string{"none", "request", "pings", "half-frame", "data-same-segment", "requests-same-segment"}
+	trailings := []string{"none", "request", "pings", "half-frame", "data-same-segment", "requests-same-segment", "window-updates-same-segment", "settings-same-segment"}
 	if thorough {
-		trailings = []string{"none", "request", "pings", "request+pings", "data-flood", "half-frame", "data-same-segment", "requests-same-segment"}
+		trailings = []string{"none", "request", "pings", "request+pings", "data-flood", "half-frame", "data-same-segment", "requests-same-segment", "window-updates-same-segment", "settings-same-segment"}
 	}
 	for _, off := range c10Offences {
 		for before := 0; before <= 2; before++ {
